@@ -62,6 +62,36 @@ def correspondence(ctx):
             ctx.mismatch('Spec.Pipe.sysHead differs from calc_system_head', {'pipeline': G.describe(pl), 'Q': Q}, got, list(want))
     if metas:
         ctx.sample({'pipeline': G.describe(metas[0][0]), 'Q': metas[0][1]})
+    # update_slurries against Spec.Pipe.updateSlurries (the model C09_update is about): which per-diameter copies exist, in which order, which diameter and
+    # parameter set each holds, which slurry every pump holds afterwards, and where the pipeline slurry's own diameter ends up - also when that diameter is
+    # not one of the pipeline's before the call
+    from DHLLDV.PipeObj import Pipe
+    lines, metas = [], []
+    for _ in range(ctx.n(40, 1500)):
+        pl = G.random_pipeline(ctx.rng, vary_speed=True)
+        dias = [s_.diameter for s_ in pl.pipesections if isinstance(s_, Pipe)]
+        r_ = ctx.rng.random()
+        d0 = pl.slurry.Dp if r_ < 0.4 else (ctx.rng.choice(dias) if r_ < 0.7 else ctx.rng.choice([0.3, 0.55, 0.8, 1.0, dias[0] + 0.0005]))
+        code = {d: i + 1 for i, d in enumerate(sorted(set(dias + [d0])))}
+        try:
+            pl._slurry.Dp = d0
+            pl.update_slurries()
+            main = pl.slurry
+
+            def pcode(sl):
+                return 1 if all(getattr(sl, k_) == getattr(main, k_) for k_ in ('Cv', 'D50', 'rhos', 'fluid', 'rhol', 'nu')) else 0
+            got = ' '.join([str(code.get(main.Dp, 0)), '|'] + [f'{code.get(d, 0)}:{pcode(sl)}:{code.get(sl.Dp, 0)}' for d, sl in pl.slurries.items()] + ['|']
+                           + [f'{1 if s_.slurry is main else pcode(s_.slurry) * 2}:{code.get(s_.slurry.Dp, 0)}' for s_ in pl.pipesections if not isinstance(s_, Pipe)])
+        except Exception as e:   # noqa
+            got = f'raised {type(e).__name__}'
+        lines.append(f'spec.updslur {code[d0]} ' + ' '.join(f'P {code[s_.diameter]}' if isinstance(s_, Pipe) else 'U' for s_ in pl.pipesections))
+        metas.append((G.describe(pl), d0, got))
+    outs = run_model(lines)
+    for (desc, d0, got), o in zip(metas, outs):
+        ctx.count('corr_compared')
+        if o.strip() != got.strip():
+            ctx.mismatch('Spec.Pipe.updateSlurries differs from Pipeline.update_slurries (main diameter | diameter:parameters:Dp of every copy | slurry of every pump)',
+                         {'pipeline': desc, 'slurry_Dp_before': d0}, o, got)
 
 
 def oracle_heads(pl, Q, slurries=None):
